@@ -57,6 +57,10 @@ def main(argv):
     os.makedirs(os.path.join(ROOT, 'evidence'), exist_ok=True)
     os.makedirs(os.path.join(ROOT, 'replays'), exist_ok=True)
     evidence_path = os.path.join(ROOT, 'evidence', prop + '.json')
+    if os.environ.get('VERIF_REPO', '/repo') != '/repo':
+        # development runs against a scratch copy never overwrite the evidence of the real tree
+        os.makedirs(os.path.join(ROOT, 'replays', 'scratch-evidence'), exist_ok=True)
+        evidence_path = os.path.join(ROOT, 'replays', 'scratch-evidence', prop + '.json')
 
     p = subprocess.run([PY, '-m', 'pyvc.worker', prop, '--list'], cwd=ROOT, capture_output=True, text=True, env=env)
     units = None
